@@ -279,9 +279,30 @@ def c13_case(ctx: Ctx, case: dict, backend: str = "numpy", tag: str = "C13", cou
                         ctx.violate(f"{tag}/{fn}/value", f"{fn} of {part} of {cname!r}: {name} = {oracle.fmt(got)} but the full model gives {oracle.fmt(ref)}",
                                     case={**case, "comp": cname, "points": [pt]})
                         return
-            # the translated missing_values passes the proven validator
+            # the translated missing_values passes the proven validator, and is the program of the model's generator
             if req and "missing_values" in funcs and not any("UNTRANSLATABLE" in o for o in funcs["missing_values"].other):
                 ctx.count("missing_values_translated")
+                f = funcs["missing_values"]
+                try:
+                    v = oracle.validate(ctx, text, "missing", mlay, f.stmts, req=req)
+                except Exception:
+                    v = {}
+                if v.get("ok"):
+                    ctx.count("missing_values_validated")
+                    if not v.get("verdict"):
+                        ctx.broke("validator", f"checkMissingValues({part})", json.dumps({"text": text, "comp": cname, "verdict": v})[:2500])
+                base_part = part.split("+")[0]
+                rp = r.get(base_part) if r.get("ok") else None
+                if rp and rp.get("req") == req and rp.get("missing_values") is not None and backend == "numpy":
+                    if rp.get("missing_hyps") and rp.get("missing_valid") is False:
+                        ctx.broke("proof-obligation", "GenValidMissing.genMissing_valid contradicted by evaluation", json.dumps({"text": text, "comp": cname}))
+                    skel = lambda stmts: [("U", st[1], st[2], st[3]) if st[0] == "U" else ("D", st[1]) if st[0] == "D" else ("S", st[1]) for st in stmts]  # noqa: E731
+                    real, model = skel(f.stmts), skel(rp["missing_values"])
+                    if real == model:
+                        ctx.count("impl_missing_programs_matched")
+                    else:
+                        ctx.broke("correspondence", f"Impl.genMissing vs generated missing_values ({part})",
+                                  json.dumps({"text": text, "comp": cname, "real": real[:40], "model": model[:40]})[:3000])
 
 
 def c13_cfg(ctx, k):
